@@ -239,8 +239,11 @@ fn run_task(r: &Report, which: Which, prog: &Prog, owners: &[Owner], b: &Budget)
                             }
                         }
                         Which::ThreeParty => {
-                            for junk in b.junk.iter() {
-                                for ss in 0..b.seed_sets {
+                            // full junk x seed-set cross on the first input with the real tape; one rotating junk pattern otherwise
+                            let junks: Vec<&'static str> = if k == 0 && tape == "real" { b.junk.clone() } else { vec![b.junk[(k + seed as usize) % b.junk.len()]] };
+                            let seed_sets = if k == 0 && tape == "real" { b.seed_sets } else { 1 };
+                            for junk in junks.iter() {
+                                for ss in 0..seed_sets {
                                     let seeds = [seed + 1000 * ss as u64, seed + 7 + 2000 * ss as u64, seed + 13 + 3000 * ss as u64];
                                     let res = one_three(r, &plan, &types, owners, &outs, iv, expected, &out_t, seeds, tape, junk, prog);
                                     r.count("evaluations", 1);
